@@ -440,6 +440,31 @@ func registerModels(m *Machine) {
 		}
 		return tuple{m.bytesToValues(bs), iface{}}
 	}
+	// Decoder.Decode: the whole input of the reader is handed to encoding/json.Unmarshal, which the
+	// run must replace by a harness stub (the reflective decoder itself is outside the engine)
+	in["(*encoding/json.Decoder).Decode"] = func(m *Machine, fr *frame, a []value) value {
+		dec := (*a[0].(*value)).(structure)
+		r := dec[0].(iface)
+		var data []value
+		for {
+			buf := make([]value, 512)
+			for i := range buf {
+				buf[i] = m.T.Const(8, 0)
+			}
+			res := m.callMethod(fr, r, "Read", buf).(tuple)
+			n := int(m.concretize(res[0].(*Term)))
+			data = append(data, buf[:n]...)
+			if e := res[1].(iface); e.t != nil || n == 0 {
+				break
+			}
+		}
+		st, ok := m.Stubs["encoding/json.Unmarshal"]
+		if !ok {
+			panic(unsupported("encoding/json.Decoder.Decode without a stub for encoding/json.Unmarshal"))
+		}
+		m.IntrHits["stub:encoding/json.Unmarshal(via Decoder.Decode)"]++
+		return m.callSSA(fr, token.NoPos, st, []value{data, a[1]}, nil)
+	}
 	in["(*encoding/json.Encoder).Encode"] = func(m *Machine, fr *frame, a []value) value {
 		enc := (*a[0].(*value)).(structure)
 		w := enc[0].(iface)
